@@ -75,6 +75,7 @@ func TestResponderConcurrent(t *testing.T) {
 		"a writer goroutine sends 300..3000 self-describing packets (small buffer sizes so slots and pooled buffers are recycled) while a second goroutine reads "+
 			"NACKs for recent numbers and a third unbinds/re-binds another stream; non-trivial = at least one retransmission observed; distinct by parameters")
 	rapid.Check(t, func(t *rapid.T) {
+		kit.Idle()
 		sizeExp := rapid.IntRange(0, 6).Draw(t, "sizeExp")
 		rtx := rapid.Bool().Draw(t, "rtx")
 		n := rapid.IntRange(300, 3000).Draw(t, "packets")
